@@ -20,6 +20,9 @@ func unitDispatch(name string, args []string, out *bufio.Writer) bool {
 	case "conc-flight":
 		concFlight(args, out)
 		return true
+	case "conc-events":
+		concEvents(args, out)
+		return true
 	case "conc-resize":
 		concResize(args, out)
 		return true
